@@ -48,38 +48,38 @@ func writeEvidence(o *opts, ck Check, sites *SiteTable, m *ShardResult, violatio
 	sort.Strings(funcs)
 	hours := wall / 3600
 	cov := map[string]any{
-		"evaluations":         m.Evals,
-		"distinct_nontrivial": len(m.Hashes),
-		"rule":                ck.Rule(),
-		"samples":             m.Samples,
-		"cases":               m.Cases,
-		"cases_planned":       total,
+		"evaluations":              m.Evals,
+		"distinct_nontrivial":      len(m.Hashes),
+		"rule":                     ck.Rule(),
+		"samples":                  m.Samples,
+		"cases":                    m.Cases,
+		"cases_planned":            total,
 		"discarded_baseline_panic": m.Discarded,
-		"simulated_steps":     m.Steps,
-		"simulated_time":      "not applicable: the library has no timers; progress is measured in executed statements of repository code (simulated_steps)",
-		"runs_per_hour":       float64(m.Evals) / hours,
-		"seeds_per_hour":      1 / hours,
-		"faults_fired":        faults,
-		"counters":            other,
-		"constructs_used":     used,
-		"probes":              probes,
-		"probes_at_zero":      zero,
-		"functions_reached":   len(funcs),
+		"simulated_steps":          m.Steps,
+		"simulated_time":           "not applicable: the library has no timers; progress is measured in executed statements of repository code (simulated_steps)",
+		"runs_per_hour":            float64(m.Evals) / hours,
+		"seeds_per_hour":           1 / hours,
+		"faults_fired":             faults,
+		"counters":                 other,
+		"constructs_used":          used,
+		"probes":                   probes,
+		"probes_at_zero":           zero,
+		"functions_reached":        len(funcs),
 		"determinism_reexecutions": redo,
 		"determinism_mismatches":   0,
-		"violations_reported": reported,
+		"violations_reported":      reported,
 		"instrumentation": map[string]any{
 			"step_sites": sites.StepSites, "access_sites": sites.AccessSites, "levels": sites.Levels,
 			"uncontrolled_map_sites": sites.UncontrolledMap, "unmodelled_sync": sites.UnmodelledSync,
 			"unrecorded_lhs": sites.UnrecordedLHS, "uninstrumented_packages": sites.Uninstrumented, "degraded_packages": sites.Degraded,
 		},
 		"real_vs_stub": map[string]string{
-			"library code":            "real: instrumented scratch copy of /repo's current working tree",
-			"goroutine scheduling":    "simulated: seeded scheduler owns every task switch (C04); other checks are single-task",
-			"map iteration order":     "simulated: policy chosen per execution (asc/desc/rotate/shuffle/native)",
-			"clock (time.Now)":        "simulated: pinned / jumped per execution",
-			"disk":                    "real files under the scratch directory + injected errors at the os.ReadFile seam",
-			"output writer":           "harness stub (fault-injecting io.Writer)",
+			"library code":             "real: instrumented scratch copy of /repo's current working tree",
+			"goroutine scheduling":     "simulated: seeded scheduler owns every task switch (C04); other checks are single-task",
+			"map iteration order":      "simulated: policy chosen per execution (asc/desc/rotate/shuffle/native)",
+			"clock (time.Now)":         "simulated: pinned / jumped per execution",
+			"disk":                     "real files under the scratch directory + injected errors at the os.ReadFile seam",
+			"output writer":            "harness stub (fault-injecting io.Writer)",
 			"std-lib and dependencies": "real, uninstrumented (atomic with respect to the schedule)",
 		},
 	}
